@@ -267,3 +267,28 @@ def link_curves(*args, **kwargs):
     kv_connected.pop()
 
     return kv, cpts, wgts, kv_connected
+
+
+def snap_params_to_knots(obj, param):
+    """ Replaces the parameters which coincide with an existing knot by the value of that knot.
+
+    Knot multiplicities are computed with a tolerance (see :func:`.helpers.find_multiplicity`) whereas knot spans are found
+    by exact comparisons. Using the knot value itself keeps the multiplicity, the span and the resulting knot vector
+    consistent when the input parameter differs from the existing knot only by a round-off error.
+
+    :param obj: spline geometry
+    :type obj: abstract.SplineGeometry
+    :param param: parameters in [u, v, w] format
+    :type param: list, tuple
+    :return: updated parameters
+    :rtype: list
+    """
+    try:
+        kvs = [obj.knotvector] if obj.pdimension == 1 else obj.knotvector
+    except AttributeError:
+        return param
+    param = list(param)
+    for idx, kv in enumerate(kvs[:len(param)]):
+        if param[idx] is not None and helpers.find_multiplicity(param[idx], kv) > 0:
+            param[idx] = min(kv, key=lambda k, p=param[idx]: abs(k - p))
+    return param
